@@ -149,6 +149,25 @@ def correspond(ctx):
                         vec(o.xh), vec(mlist(r2['x'])), vec(mlist(r2['snl'])), vec(mlist(r2['sl'])), vec(mlist(r2['y'])), vec(mlist(r2['znl'])), vec(mlist(r2['zl'])),
                         fr(certlib.tol_eff(t[0])), fr(certlib.tol_eff(t[1])), fr(certlib.tol_eff(t[2]))))
                     meta.append(('cpl', r2, desc2, t))
+        # ------------------------------------------------ the same QCQP from a starting point that violates the equality constraints by far (||A x0 - b|| >> 1):
+        # the documented normaliser of the primal residual is taken at that point
+        if it % 3 == 1 and pr.p > 0:
+            x0f = [a + float(rng_s.choice([-1, 1]) * rng_s.randint(50, 200)) for a in o.xh]
+            F3 = make_F(cvxopt, o.quads, x0f)
+            desc3 = dict(desc, x0=x0f, kktsolver=None, options={'show_progress': False})
+            evals += 1
+            try: r3 = quiet(solvers.cpl, c, F3, G, h, pr.dims, A, b, options={'show_progress': False})
+            except Exception: r3 = None
+            if r3 is not None:
+                bump('cpl-far-start:' + r3['status'])
+                if r3['status'] == 'optimal':
+                    t = tolv({})
+                    lines += [prob_line(pr)] + quad_lines(o.quads)
+                    meta += [None] * (1 + len(o.quads))
+                    lines.append('optimalcpl x0=%s x=%s snl=%s sl=%s y=%s znl=%s zl=%s tol=%s,%s,%s' % (
+                        vec(x0f), vec(mlist(r3['x'])), vec(mlist(r3['snl'])), vec(mlist(r3['sl'])), vec(mlist(r3['y'])), vec(mlist(r3['znl'])), vec(mlist(r3['zl'])),
+                        fr(certlib.tol_eff(t[0])), fr(certlib.tol_eff(t[1])), fr(certlib.tol_eff(t[2]))))
+                    meta.append(('cpl', r3, desc3, t))
         # ------------------------------------------------ cp on a quadratic objective (+ constraints); compare with coneqp when no quadratic constraints
         o = plant(rng, PR, True)
         pr = o.pr
